@@ -26,7 +26,8 @@ def main():
     ap.add_argument('--pattern', default='.')
     ap.add_argument('--only-thorough', action='store_true')
     ap.add_argument('-j', type=int, default=12)
-    ap.add_argument('--budget', type=int, default=4 * 3600)
+    ap.add_argument('--budget', type=int, default=3600, help='overall budget per batch (s)')
+    ap.add_argument('--batch', type=int, default=48)
     ap.add_argument('--timeout', default='20m')
     ap.add_argument('--out', default='/var/tmp/validate_harnesses.json')
     a = ap.parse_args()
@@ -36,23 +37,28 @@ def main():
     try:
         crate = kani_run.prepare_scratch(a.repo, os.path.join(d, 'kani'))
         print(len(names), 'harnesses', d, flush=True)
-        out = kani_run.run_harnesses(crate, names, jobs=a.j, harness_timeout=a.timeout, overall_timeout=a.budget)
         res = {}
-        for n in names:
-            r = out['results'][n]
-            h = kani_gen.HARNESSES[n]
-            exp, cmin = h.get('covers_expected'), h.get('covers_min')
-            vac = r['status'] == 'ok' and (r['checks'] == 0 or (exp is not None and r['covers_sat'] < exp) or
-                                           (exp is None and cmin is None and r['covers_sat'] < r['covers_total']) or
-                                           (cmin is not None and r['covers_sat'] < cmin))
-            res[n] = dict(status=r['status'], vacuous=vac, checks=r['checks'], failed=r['failed'], covers='%d/%d' % (r['covers_sat'], r['covers_total']),
-                          time_s=r['time_s'], failed_checks=r['failed_checks'])
-            print('%-64s %-12s %s checks=%d failed=%d covers=%d/%d t=%.0fs %s' % (
-                n, r['status'], 'VACUOUS' if vac else '', r['checks'], r['failed'], r['covers_sat'], r['covers_total'], r['time_s'],
-                '; '.join(r['failed_checks'])[:300]), flush=True)
-        print('wall %.0fs rc=%s %s' % (out['wall_s'], out['rc'], out['compile_error'] or ''))
-        with open(a.out, 'w') as f:
-            json.dump(res, f, indent=1)
+        k = 0
+        while k < len(names):
+            batch = names[k:k + a.batch]
+            k += a.batch
+            # one cargo-kani invocation per batch: a crash of the driver loses one batch only
+            out = kani_run.run_harnesses(crate, batch, jobs=a.j, harness_timeout=a.timeout, overall_timeout=a.budget)
+            for n in batch:
+                r = out['results'][n]
+                h = kani_gen.HARNESSES[n]
+                exp, cmin = h.get('covers_expected'), h.get('covers_min')
+                vac = r['status'] == 'ok' and (r['checks'] == 0 or (exp is not None and r['covers_sat'] < exp) or
+                                               (exp is None and cmin is None and r['covers_sat'] < r['covers_total']) or
+                                               (cmin is not None and r['covers_sat'] < cmin))
+                res[n] = dict(status=r['status'], vacuous=vac, checks=r['checks'], failed=r['failed'], covers='%d/%d' % (r['covers_sat'], r['covers_total']),
+                              time_s=r['time_s'], failed_checks=r['failed_checks'])
+                print('%-64s %-12s %s checks=%d failed=%d covers=%d/%d t=%.0fs %s' % (
+                    n, r['status'], 'VACUOUS' if vac else '', r['checks'], r['failed'], r['covers_sat'], r['covers_total'], r['time_s'],
+                    '; '.join(r['failed_checks'])[:300]), flush=True)
+            print('batch wall %.0fs rc=%s %s' % (out['wall_s'], out['rc'], out['compile_error'] or ''), flush=True)
+            with open(a.out, 'w') as f:
+                json.dump(res, f, indent=1)
     finally:
         shutil.rmtree(d, ignore_errors=True)
 
